@@ -2,6 +2,8 @@
 from mirq import callee, is_self_field, origin_calls, origin_mentions_call, strip_refs
 from props import net
 
+THOROUGH_CONFIGS = ["default", "blocking", "websocket", "all"]
+
 EXPLANATION = (
     "Who-may-call and provenance rules on the resolved MIR of both Framed::write implementations and the three transport "
     "adaptors: the only call that hands bytes to the inner transport is a complete-write API (Write::write_all / "
